@@ -4,6 +4,7 @@ format of harness `c01`: per program `\x1eB`, the script output, then `\x1eV v1\
 Programs on stdin are separated by a line `;;;===`.
 -/
 import SteelVerif.Base.Eval
+import SteelVerif.C01.Frag
 namespace SteelVerif.C01
 open SteelVerif.Base
 
@@ -21,7 +22,59 @@ def runProgram (st0 : St) (src : String) : String :=
     | none => s!"\u001eB\n{out}\n\u001eV {"\u001f".intercalate vals}"
     | some o => s!"\u001eB\n{out}\n\u001eE {o}"
 
-def mainC01 (_args : List String) : IO Unit := do
+/-! ### `frag` mode: the lowered-core fragment — reference semantics `evalIR` and the VM `runVM` on the same
+program.  Input: lines `fn <arity> <ir>` … `main <ir>`; output `ref=<value|none> vm=<value|none>`. -/
+
+partial def parseIR : Sexp → Option IR
+  | .list [.sym "c", .int n] => some (.const (.int n))
+  | .list [.sym "t"] => some (.const (.bool true))
+  | .list [.sym "f"] => some (.const (.bool false))
+  | .list [.sym "l", .int i] => some (.loc i.toNat)
+  | .list [.sym "p", .sym op, a, b] => do
+      let o ← match op with
+        | "add" => some Op.add | "sub" => some Op.sub | "mul" => some Op.mul
+        | "lt" => some Op.lt | "le" => some Op.le | "eq" => some Op.eq | _ => none
+      some (.prim o (← parseIR a) (← parseIR b))
+  | .list [.sym "if", c, t, e] => do some (.ite (← parseIR c) (← parseIR t) (← parseIR e))
+  | .list [.sym "let", e, b] => do some (.let1 (← parseIR e) (← parseIR b))
+  | .list [.sym "seq", a, b] => do some (.seq (← parseIR a) (← parseIR b))
+  | .list [.sym "set", .int i, e] => do some (.setLoc i.toNat (← parseIR e))
+  | .list (.sym "call" :: .int f :: args) => do some (.call f.toNat (← args.mapM parseIR))
+  | _ => none
+
+def showFVal : Option C01.Val → String
+  | some (.int n) => toString n
+  | some (.bool true) => "#true"
+  | some (.bool false) => "#false"
+  | none => "none"
+
+partial def fragLoop (h : IO.FS.Stream) (fns : List FnDef) : IO Unit := do
+  let l ← h.getLine
+  if l.isEmpty then return ()
+  let l := l.trimAscii.toString
+  if l.startsWith "fn " then
+    match Reader.read (l.drop 3).toString with
+    | some [.int ar, ir] =>
+        match parseIR ir with
+        | some b => fragLoop h (fns ++ [{ arity := ar.toNat, body := b }])
+        | none => IO.println "bad"; fragLoop h fns
+    | _ => IO.println "bad"; fragLoop h fns
+  else if l.startsWith "main " then
+    match (Reader.read (l.drop 5).toString).bind (fun x => x.head?.bind parseIR) with
+    | some e =>
+        let r := (evalIR fns 200 e []).map (·.1)
+        let v := runVM fns 200000 (initVM' e)
+        IO.println s!"ref={showFVal r} vm={showFVal v}"
+        fragLoop h []
+    | none => IO.println "bad"; fragLoop h []
+  else fragLoop h fns
+where
+  initVM' (e : IR) : VM := { cur := { code := compile e ++ [.ret], ip := 0, stack := [] }, frames := [] }
+
+def mainC01 (args : List String) : IO Unit := do
+  if args == ["frag"] then
+    fragLoop (← IO.getStdin) []
+    return ()
   let src ← readAll (← IO.getStdin) ""
   let st0 := initState
   for prog in src.splitOn "\n;;;===\n" do
